@@ -4,12 +4,15 @@ package main
 
 import (
 	"fmt"
+	"regexp"
 	"strconv"
 	"strings"
 
 	"github.com/llir/llvm/asm"
 	"github.com/llir/llvm/ir/types"
 )
+
+var tyNameRe = regexp.MustCompile(`%"[^"]*"|%[-a-zA-Z$._0-9]+`)
 
 // tyParser parses the compact type descriptors of the line protocol.
 type tyParser struct {
@@ -189,6 +192,25 @@ func init() {
 			return "FAIL string"
 		}
 		return "ok"
+	})
+	// ty.parse <hex text>: the real parser on the text of a type (as the parameter of a declaration; every %name
+	// occurring in the text is defined as an opaque type); prints the parsed type, or "error"
+	reg("ty.parse", func(a []string) string {
+		text := string(unhexArg(a[0]))
+		var sb strings.Builder
+		seen := map[string]bool{}
+		for _, nm := range tyNameRe.FindAllString(text, -1) {
+			if !seen[nm] {
+				seen[nm] = true
+				fmt.Fprintf(&sb, "%s = type opaque\n", nm)
+			}
+		}
+		fmt.Fprintf(&sb, "declare void @f(%s)\n", text)
+		m, err := asm.ParseString("x.ll", sb.String())
+		if err != nil || len(m.Funcs) != 1 || len(m.Funcs[0].Sig.Params) != 1 || m.Funcs[0].Sig.Variadic {
+			return "error"
+		}
+		return hexOut([]byte(m.Funcs[0].Sig.Params[0].String()))
 	})
 	// printing a type and parsing it back preserves equality
 	reg("ty.rt", func(a []string) string {
